@@ -99,3 +99,11 @@ claim('C12', 'bounded symbolic execution of the real reader on base files and on
       'to differ from every option the library reads) is inserted at every position, and two options into selected '
       'headers; z3 shows every record equals the base run except for the added keys, reported verbatim / as integers.',
       BASE_NOTE, 'DESIGN.md section 4, C12')
+
+claim('C09', 'inductive-step symbolic execution of one real writer call from an arbitrary valid writer state, with symbolic text and codec-name characters; stream operation log and state snapshot compared; z3',
+      'One call out of 26 valid/invalid variants (wrong type, empty content, bad option values, unknown codec, codec '
+      'name with symbolic characters, text with symbolic code points, unserialisable metadata) from every valid writer '
+      'state: accepted <=> the specification hierarchy allows the section; if the call raises, the stream log is '
+      'unchanged and (_stack, _prev_section) are deep-equal; if accepted, only appending writes occurred and the '
+      'invariant holds again (induction over histories). Constructor and all public-API call sequences of length 4 / 6.',
+      BASE_NOTE + ' OS-level write failures are outside the claim.', 'DESIGN.md section 4, C09; Appendix A')
